@@ -887,6 +887,53 @@ theorem build_rep : ∀ (es fs : List (List Str × List Cell)),
         simp only [firstEntries, hs, if_true]
       rw [hstep, build_rep es fs, hf]
 
+theorem firstEntries_find (k : List Str) : ∀ (es : List (List Str × List Cell)) (seen : List (List Str)),
+    seen.contains k = false →
+    (firstEntries seen es).find? (fun e => k == e.1) = es.find? (fun e => k == e.1)
+  | [], _, _ => rfl
+  | e :: es, seen, hk => by
+    unfold firstEntries
+    cases hke : k == e.1
+    · have hne : k ≠ e.1 := by simpa using hke
+      have hk' : (seen ++ [e.1]).contains k = false := by
+        have : k ∉ seen := by simpa using hk
+        simp [this, hne]
+      cases hs : seen.contains e.1
+      · simp only [Bool.false_eq_true, if_false, List.find?_cons, hke]
+        exact firstEntries_find k es _ hk'
+      · simp only [if_true, List.find?_cons, hke]
+        exact firstEntries_find k es seen hk
+    · have heq : k = e.1 := by simpa using hke
+      have hs : seen.contains e.1 = false := by rw [← heq]; exact hk
+      simp only [hs, Bool.false_eq_true, if_false, List.find?_cons, hke]
+
+theorem findIdx_bind_get {α β} (p : α → Bool) (f : α → β) : ∀ l : List α,
+    (l.findIdx? p).bind (fun i => (l.map f)[i]?) = (l.find? p).map f
+  | [] => rfl
+  | x :: l => by
+    simp only [List.findIdx?_cons, List.find?_cons]
+    cases hp : p x
+    · simp only [Bool.false_eq_true, if_false]
+      have ih := findIdx_bind_get p f l
+      cases hfi : l.findIdx? p with
+      | none => rw [hfi] at ih; simpa using ih
+      | some i => rw [hfi] at ih; simpa using ih
+    · simp
+
+/-- **A repeated source key: the first map_list row wins.**  For every map_list, looking a key up in the KeyMap
+that `update` builds (positions advance only for NEW keys) gives the destination values of the first row with
+that key, `none` if there is no such row. -/
+theorem remap_first_wins (entries : List (List Str × List Cell)) (k : List Str) :
+    ((buildKeyMap entries).dict.lookup k).bind (fun i => (buildKeyMap entries).rows[i]?)
+      = (entries.find? (fun e => k == e.1)).map (·.2) := by
+  have h := build_rep entries []
+  simp only [dictOf, List.map_nil, List.nil_append] at h
+  have h' : buildKeyMap entries
+      = ⟨dictOf 0 (firstEntries [] entries), (firstEntries [] entries).map (·.2)⟩ := h
+  rw [h', lookup_dictOf]
+  simp only [Nat.add_zero, Option.map_id']
+  rw [findIdx_bind_get, firstEntries_find k entries [] (by simp)]
+
 theorem remap_refines (src dst : List Str) (ml : List (List Val)) (ign : Bool) (is : Option (List Str))
     (t : Table) : remapImpl src dst ml ign is t = remapSpec src dst ml ign is t := by
   unfold remapImpl remapSpec
